@@ -1274,7 +1274,7 @@ fn step(rng: &mut Rng, sink: &mut Sink, w: &mut World, focus: &str) {
                 7..=10 => {
                     // directed: the current minter approves, the deployer uses the approval — with zero or one
                     // departure from the approved combination — then tries to use it a second time
-                    let fault = if rng.chance(1, 2) { 0 } else { rng.range(1, 10) };
+                    let fault = if rng.chance(1, 2) { 0 } else { rng.range(1, 11) };
                     let good_chain = rng.pick(&[ETH.to_vec(), AVA.to_vec()]).clone();
                     // fault 9: a second trusted chain whose name differs from the approved one only in letter case
                     let sibling = flip_case(&good_chain, rng.chance(1, 2));
@@ -1288,12 +1288,23 @@ fn step(rng: &mut Rng, sink: &mut Sink, w: &mut World, focus: &str) {
                     if fault == 3 {
                         w.tx(sink, &author, "revokeDeployRemoteInterchainToken", 0, "-", &[user(1), salt.clone(), good_chain.clone()]);
                     }
+                    // variant 10 (no fault): the author changes his mind — a second approval for the same combination names
+                    // another destination minter; the LATEST approval is the one that counts
+                    let replaced = if dm == b"0xOther".to_vec() { b"0xRemoteMinter".to_vec() } else { b"0xOther".to_vec() };
+                    if fault == 10 {
+                        w.tx(sink, &author, "approveDeployRemoteInterchainToken", 0, "-", &[user(1), salt.clone(), good_chain.clone(), replaced.clone()]);
+                        if rng.chance(1, 2) {
+                            // the replaced one no longer authorises anything
+                            let out = w.tx(sink, &user(1), "deployRemoteInterchainTokenWithMinter", 0, "-", &[salt.clone(), user(4), good_chain.clone(), dm.clone()]);
+                            w.track(&out, PendK::Props);
+                        }
+                    }
                     if fault == 4 {
                         // somebody else "revokes": must not touch the author's approval
                         w.tx(sink, &user(5), "revokeDeployRemoteInterchainToken", 0, "-", &[user(1), salt.clone(), good_chain.clone()]);
                     }
                     let use_chain = if fault == 5 { if good_chain == ETH.to_vec() { AVA.to_vec() } else { ETH.to_vec() } } else if fault == 9 { sibling.clone() } else { good_chain.clone() };
-                    let use_dm = if fault == 6 { if dm == b"0xOther".to_vec() { b"0xRemoteMinter".to_vec() } else { b"0xOther".to_vec() } } else { dm.clone() };
+                    let use_dm = if fault == 6 { if dm == b"0xOther".to_vec() { b"0xRemoteMinter".to_vec() } else { b"0xOther".to_vec() } } else if fault == 10 { replaced.clone() } else { dm.clone() };
                     let use_deployer = if fault == 7 { user(2) } else { user(1) };
                     let use_minter = if fault == 8 { user(5) } else { user(4) };
                     let windowed = rng.chance(1, 3);
